@@ -32,8 +32,11 @@ LEVEL_TEXT = ('Proved in Lean (Signac/Properties/C14.lean), same model as C13, f
     '(update_overwrites_all); NO_SYNC / COPY never merge (nosync_none). Compared with the real entry points on generated '
     "conflicting pairs; the oracle checks every conflicting file / key against the strategy's verdict and the rollback.")
 LEVEL_NOTE = ("'Differs' without deep is filecmp's shallow rule (differs_shallow_rule): equal (size, mtime) => same; content comparison "
-    'regardless of timestamps is C15 (deep). Proved for DocumentSyncConflict: every unselected conflicting key is in the payload; '
-    'the converse (nothing else is in it) is checked by the oracle only. A mapping in the source facing a non-mapping in the '
+    'regardless of timestamps is C15 (deep). The payload of DocumentSyncConflict is proved to be EXACTLY the conflicting keys '
+    '(conflict_payload_exact, conflict_payload_eq: in walk order; no_conflict_no_error; with a key strategy the skipped list is '
+    'exactly the unselected conflicting keys, bykey_skipped_exact); that it is duplicate-free is refuted for keys containing a dot '
+    "({'a.b':1,'a':{'b':1}} reports 'a.b' twice: conflict_payload_nodup_false) and proved otherwise (conflict_payload_nodup_partial). "
+    'A mapping in the source facing a non-mapping in the '
     'destination raises TypeError in the code (modelled, rolled back; the theorems exclude it by hypothesis typeErr = false). '
     'Model = code with fixes F-13, F-14a, F-15d applied; carve-outs as in C13. Trusted base as in C13.')
 
